@@ -474,6 +474,9 @@ class Forcing(BaseForce):
         nextstep = steps[i + 1]
 
         self.fields["u"], self.fields["v"] = self._read_velocity(prestep)
+        # Other forcing, read while the file with the prestep frame is open
+        for name in self.extra_forcing:
+            self.fields[name] = self._read_field(name, prestep)
         self.fields["u_new"], self.fields["v_new"] = self._read_velocity(nextstep)
         self.fields["dU"] = (self.fields["u_new"] - self.fields["u"]) / stepdiff0
         self.fields["dV"] = (self.fields["v_new"] - self.fields["v"]) / stepdiff0
@@ -485,9 +488,6 @@ class Forcing(BaseForce):
         # Interpolate to time step = -1
         self.fields["u"] = self.fields["u"] - (prestep + 1) * self.fields["dU"]
         self.fields["v"] = self.fields["v"] - (prestep + 1) * self.fields["dV"]
-        # Other forcing
-        for name in self.extra_forcing:
-            self.fields[name] = self._read_field(name, prestep)
 
         self.steps = steps
         # self.files = files
@@ -566,6 +566,7 @@ class Forcing(BaseForce):
         nc = Dataset(self.file_idx[time_step])
         nc.set_auto_maskandscale(False)
         self._nc = nc
+        self._open_file = self.file_idx[time_step]
 
         # Get scaling info per variable
         self.scaled = dict()
@@ -592,7 +593,7 @@ class Forcing(BaseForce):
         if self._first_read:
             self.open_forcing_file(time_step)  # Open first file
             self._first_read = False
-        elif self.frame_idx[time_step] == 0:  # Open next file
+        elif self.file_idx[time_step] != self._open_file:  # Open the right file
             self._nc.close()
             self.open_forcing_file(time_step)
 
